@@ -280,7 +280,11 @@ func CheckC08(run *ev.Run) {
 		replay := map[string]interface{}{"spec": json.RawMessage(spec), "how": "generate the server, register one handler per operation, send one request per (method, path) of the spec"}
 		if err != nil {
 			st["reach-build-failed"]++
-			run.Deviation("server-does-not-build", "a valid spec generates a server that does not build: "+tail(err.Error(), 600), replay)
+			// a subject that does not compile is C01's finding, not this property's; it is counted, and a run in which NOTHING could be built is a broken tie
+			st["subject-does-not-build(C01)"]++
+			if os.Getenv("VERIF_DEBUG") != "" {
+				fmt.Fprintln(os.Stderr, "build failed:", tail(err.Error(), 400))
+			}
 			if sb != nil {
 				sb.Remove()
 			}
